@@ -155,6 +155,8 @@ class Exec:
             ref = link.reference_node if not isinstance(link, L.MultiRelationLink) else "multi"
             self.placements.append({"step": i, "ret_is_op": ret is o, "rt": link.relation_type.name,
                                     "ref_obj": ref, "ref_ent": self.entry_of(ref) if ref is not None and ref != "multi" else None})
+            if st.get("relist"):
+                observe.list_ops(h)
         elif op == "ADD_OP_IN":
             # add to a nested sub-circuit through the handle that add(sub-circuit) returned
             h = self.handles[st["c"]]
@@ -166,6 +168,8 @@ class Exec:
             ref = link.reference_node if not isinstance(link, L.MultiRelationLink) else "multi"
             self.placements.append({"step": i, "ret_is_op": True, "rt": link.relation_type.name, "ref_obj": ref,
                                     "ref_ent": None, "key": id(o)})
+            if st.get("relist"):
+                observe.list_ops(h)
         elif op == "ADD_SUB":
             h = self.handles[st["c"]]
             child = self.handles[st["child"]]
